@@ -360,7 +360,8 @@ class SimRNG:
 
         # the clock (timing prints of DataSampler) and its prints
         from torchphysics.problem.samplers import data_samplers
-        setp(data_samplers, "time", self.clock)
+        if hasattr(data_samplers, "time"):       # (a refactoring may drop the timing code: not a seam any more then)
+            setp(data_samplers, "time", self.clock)
         if not hasattr(data_samplers, "print"):
             data_samplers.print = lambda *a, **k: None
             self._installed.append((data_samplers, "print", None))
@@ -386,10 +387,16 @@ class SimRNG:
         from torchphysics.problem.domains.domainoperations import sampler_helper as sh
         from torchphysics.problem.samplers import sampler_base as sb
         from torchphysics.problem.samplers import random_samplers as rs
-        orig_check = sh._check_in_b
+        # The acceptance seams wrap PRIVATE helpers. They pass every argument through unchanged and are installed
+        # only where the helper exists, so that a refactoring of those helpers (another signature, another name)
+        # can never make the simulator itself raise: the seam is then simply absent (fewer fault sites).
+        self.missing_seams = []
+        orig_check = getattr(sh, "_check_in_b", None)
 
-        def check_in_b(domain_b, params, invert, grid_a):
-            idx = orig_check(domain_b, params, invert, grid_a)
+        def check_in_b(*args, **kwargs):
+            idx = orig_check(*args, **kwargs)
+            if not isinstance(idx, torch.Tensor):
+                return idx
             if sys._getframe(1).f_code.co_name in ("_random_points_inside",
                                                    "_random_points_if_n_eq_1"):
                 r = sim._reject_now("check_in_b")
@@ -398,40 +405,52 @@ class SimRNG:
                     # round and would (legitimately) ask for n**2 proposals next
                     idx = sim._thin(idx, r, ("all", "all", "half"))
             return idx
-        setp(sh, "_check_in_b", check_in_b)
+        if orig_check is not None:
+            setp(sh, "_check_in_b", check_in_b)
+        else:
+            self.missing_seams.append("check_in_b")
 
-        orig_filter = sb.PointSampler._apply_filter
+        orig_filter = getattr(sb.PointSampler, "_apply_filter", None)
 
-        def apply_filter(this, sample_points):
-            out = orig_filter(this, sample_points)
+        def apply_filter(this, *args, **kwargs):
+            out = orig_filter(this, *args, **kwargs)
             if sys._getframe(1).f_code.co_name == "_sample_n_points_with_filter" \
-                    and isinstance(this, rs.RandomUniformSampler):
+                    and isinstance(this, rs.RandomUniformSampler) and hasattr(out, "__len__"):
                 r = sim._reject_now("apply_filter")
                 if r is not None and len(out) > 0:
                     keep = sim._thin(torch.arange(len(out)), r)
                     out = out[keep, ]
             return out
-        setp(sb.PointSampler, "_apply_filter", apply_filter)
+        if orig_filter is not None:
+            setp(sb.PointSampler, "_apply_filter", apply_filter)
+        else:
+            self.missing_seams.append("apply_filter")
 
-        orig_gauss = rs.GaussianSampler._check_inside_domain
+        orig_gauss = getattr(rs.GaussianSampler, "_check_inside_domain", None)
 
-        def gauss_inside(this, new_points):
-            out = orig_gauss(this, new_points)
-            r = sim._reject_now("gauss_inside")
+        def gauss_inside(this, *args, **kwargs):
+            out = orig_gauss(this, *args, **kwargs)
+            r = sim._reject_now("gauss_inside") if hasattr(out, "__len__") else None
             if r is not None and len(out) > 0:
                 out = out[sim._thin(torch.arange(len(out)), r), ]
             return out
-        setp(rs.GaussianSampler, "_check_inside_domain", gauss_inside)
+        if orig_gauss is not None:
+            setp(rs.GaussianSampler, "_check_inside_domain", gauss_inside)
+        else:
+            self.missing_seams.append("gauss_inside")
 
-        orig_lhs = rs.LHSSampler._check_lhs_inside
+        orig_lhs = getattr(rs.LHSSampler, "_check_lhs_inside", None)
 
-        def lhs_inside(this, lhs_points, ith_params):
-            out = orig_lhs(this, lhs_points, ith_params)
-            r = sim._reject_now("lhs_inside")
+        def lhs_inside(this, *args, **kwargs):
+            out = orig_lhs(this, *args, **kwargs)
+            r = sim._reject_now("lhs_inside") if hasattr(out, "__len__") else None
             if r is not None and len(out) > 0:
                 out = out[sim._thin(torch.arange(len(out)), r), ]
             return out
-        setp(rs.LHSSampler, "_check_lhs_inside", lhs_inside)
+        if orig_lhs is not None:
+            setp(rs.LHSSampler, "_check_lhs_inside", lhs_inside)
+        else:
+            self.missing_seams.append("lhs_inside")
         return self
 
     def uninstall(self):
